@@ -26,7 +26,7 @@ def build(h, which, move=None, seed=0):
     """move = (c, A, pR): the whole problem (support, load, reference configuration) moved rigidly"""
     from cardillo import System
     from cardillo.discrete import Frame
-    from cardillo.forces import Force, B_Moment
+    from cardillo.forces import Force, B_Moment, Moment
     import cardillo.constraints as C
     rng = np.random.default_rng(seed + 33)
     eye = np.eye(3)
@@ -49,7 +49,9 @@ def build(h, which, move=None, seed=0):
             b.q0 = np.concatenate([c + A @ r0, quatprod(move[2], P0)])
             j = C.Spherical(fr, b, r_OJ0=c + A @ rJ)
         f = Force(lambda t: t * (A @ F0), b, B_r_CP=np.array([0.0, 0.25, 0.125]))
-        sysm.add(fr, b, j, f)
+        # a moment given in the inertial basis moves with the problem
+        mo = Moment(lambda t: t * (A @ np.array([0.25, -0.5, 0.125])), b)
+        sysm.add(fr, b, j, f, mo)
         body = b
     else:
         mixed = which == "rod_mixed"
